@@ -243,7 +243,8 @@ def gen_diff(rng, nl, enc):
         for k in range(rng.randrange(1, 7)):
             kind = rng.choice(' -+')
             txt = rng.choice(['x', '', 'foo bar', '+-+', '@@ x', '--- a',
-                              '+++ b', ' lead'])
+                              '+++ b', ' lead', '-- sql comment', '++ x',
+                              '- item', '+ item', '@ -1 +1 @@'])
             body.append(kind + txt)
             if kind in ' -':
                 o += 1
